@@ -141,6 +141,26 @@ def stepC19 (_ : Unit) (ws : List String) : Unit × String :=
             | (none, m) => s!"nil {m}"
             | (some bs, m) => s!"{toHex bs} {m}"
         | _, _ => "bad-op"
+    | "efbig" :: "save" :: lim :: old :: ts =>
+        match natTok lim 1073741824, parseTree ts with
+        | some lim, some spec =>
+          if old ≠ "none" && (parseHex old).isNone then "bad-op" else
+          match buildItems [] spec emptyFav with
+          | .built f => match saveBytes f with
+              | .ok b => match efbigOutcome lim b.length with
+                  | .ok => "ok new"
+                  | .err => if old = toHex b then "err new" else "err old"
+              | .error _ => "bad-op"
+          | _ => "bad-op"
+        | _, _ => "bad-op"
+    | ["efbig", "wf", lim, old, new] =>
+        match natTok lim 1073741824, parseHex new with
+        | some lim, some nb =>
+          if nb.isEmpty || (old ≠ "none" && (parseHex old).isNone) then "bad-op" else
+          match efbigOutcome lim nb.length with
+          | .ok => "ok new"
+          | .err => if old = toHex nb then "err new" else "err old"
+        | _, _ => "bad-op"
     | ["conc", nw, ms, sd] =>
         match natTok nw 64, natTok ms 60000, natTok sd 4294967295 with
         | some nw, some ms, some _ => if nw = 0 || ms = 0 then "bad-op" else "whole"
